@@ -410,7 +410,8 @@ def encodeStaticItems (item : Dop) (itemSize : Nat) (origEop : Bool) : (fuel : N
   | 0, _ => raise .unmodelled
   | _+1, [] => pure ()
   | fuel+1, x :: rest => do
-    if rest.isEmpty then modifyS fun s => { s with isEndOfPdu := origEop }
+    -- (fix c01-static-field-last-item-end-of-pdu: no item, not even the last one, is encoded with `is_end_of_pdu`;
+    --  every item is potentially followed by padding up to ITEM-BYTE-SIZE.  `origEop` is restored by the caller.)
     let s0 ← getS
     encodeDop fuel item x
     let s1 ← getS
